@@ -327,6 +327,44 @@ def tables(repo):
                 first_some = first_some.start() if first_some else -1
             callers[nm.group(1)] = {'binds': 'Some' in hashes, 'checked_before_bind': ('Some' not in hashes) or (0 <= chk < first_some)}
     t['store_api_key_callers'] = callers
+    # persistence of the key map and of the registry: every step, and any `return` ahead of the write
+    for fn, const, var, key in (('persist_api_keys', 'DB_API_KEYS_KEY', 'keys', 'persist_keys_steps'),
+                                ('persist_registry', 'DB_REGISTRY_KEY', 'names', 'persist_registry_steps')):
+        pb = fn_body(state, fn, G)
+        steps = []
+        items = [
+            ('snapshot', r'let\s+%s\s*:\s*BTree(?:Map|Set)\s*<[^;]*?\.clone\s*\(\s*\)\s*\}?\s*;' % var),
+            ('primary_lookup', r'dbs\s*\.\s*get\s*\(\s*&self\s*\.\s*inner\s*\.\s*options\s*\.\s*primary_db\s*\)'),
+            ('save_extension', r'\.\s*save_extension_from\s*\(\s*%s\s*\.\s*to_string\s*\(\s*\)\s*,\s*&%s\s*\)\s*\.\s*await' % (const, var)),
+            ('propagate_error', r'return\s+Err\s*\(\s*err\s*\.\s*into\s*\(\s*\)\s*\)\s*;'),
+            ('ok', r'Ok\s*\(\s*\(\s*\)\s*\)\s*$'),
+        ]
+        pos = []
+        for tag, rx in items:
+            m = re.search(rx, pb.strip() if tag == 'ok' else pb, re.S)
+            if not m:
+                lost(G, '%s: %s' % (fn, tag))
+                continue
+            pos.append((m.start() if tag != 'ok' else len(pb), tag))
+        save = next((p_ for p_, tg in pos if tg == 'save_extension'), len(pb))
+        for m in re.finditer(r'\breturn\b|\?\s*;', pb):
+            if m.start() < save:
+                pos.append((m.start(), 'early_exit'))
+        t[key] = [tg for _, tg in sorted(pos)]
+    sk = fn_body(state, 'store_api_key', G)
+    t['store_api_key_steps'] = _order(sk, [
+        ('update_map', r'Some\s*\(\s*hash\s*\)\s*=>\s*keys\s*\.\s*insert\s*\(\s*name\s*\.\s*to_string\s*\(\s*\)\s*,\s*hash\s*\)\s*,\s*None\s*=>\s*keys\s*\.\s*remove\s*\(\s*name\s*\)'),
+        ('persist', r'if\s+let\s+Err\s*\(\s*err\s*\)\s*=\s*self\s*\.\s*persist_api_keys\s*\(\s*\)\s*\.\s*await\s*\{'),
+        ('rollback_and_fail', r'return\s+Err\s*\(\s*err\s*\)\s*;'),
+    ], 'store_api_key')
+    cn = fn_body(state, 'connect', G)
+    t['connect_loads'] = _order(cn, [
+        ('registry_from_extension', r'primary\s*\.\s*get_extension\s*\(\s*DB_REGISTRY_KEY\s*\)'),
+        ('keys_from_extension', r'let\s+api_keys\s*:\s*BTreeMap\s*<\s*String\s*,\s*ApiKeyHash\s*>\s*=\s*match\s+primary\s*\.\s*get_extension\s*\(\s*DB_API_KEYS_KEY\s*\)\s*\{\s*Some\s*\(\s*value\s*\)\s*=>\s*value\s*\.\s*deserialized\s*\(\s*\)'),
+        ('keys_without_admin_refused', r'if\s+!\s*api_keys\s*\.\s*is_empty\s*\(\s*\)\s*&&\s*options\s*\.\s*api_key\s*\.\s*is_none\s*\(\s*\)\s*\{\s*return\s+Err'),
+        ('keys_into_state', r'api_keys\s*:\s*StdRwLock::new\s*\(\s*api_keys\s*\)'),
+        ('reopen_registered', r'for\s+name\s+in\s+registered\s*\{'),
+    ], 'AppState::connect')
     return t
 
 
@@ -364,6 +402,8 @@ def generate(repo):
     o.append('Definition unauthorized_wire : string * string * string := (%s, %s, %s).\n' % tuple(_s(x) for x in t['unauthorized']))
     o.append('Definition binding_checks : list string := %s.\n' % _lst(_s(x) for x in t['binding_checks']))
     o.append('Definition api_keys_writers : list string := %s.\n' % _lst(_s(x) for x in t['api_keys_writers']))
+    for nm in ('persist_keys_steps', 'persist_registry_steps', 'store_api_key_steps', 'connect_loads'):
+        o.append('Definition %s : list string := %s.\n' % (nm, _lst(_s(x) for x in t[nm])))
     o.append('Definition store_api_key_callers : list (string * bool * bool) := %s.\n' % _lst(
         '(%s, %s, %s)' % (_s(k), str(v['binds']).lower(), str(v['checked_before_bind']).lower())
         for k, v in sorted(t['store_api_key_callers'].items())))
